@@ -878,9 +878,9 @@ func TestVerifC16(t *testing.T) {
 	}
 	defs := []sysDef{
 		{rowCfg, c16Direct{}, "direct", ev.Pick(r, 8, 12), 0, ev.Pick(r, int64(60000), int64(400000))},
-		{rowCfg, c16FSM{}, "fsm", ev.Pick(r, 3, 5), 32, ev.Pick(r, int64(20000), int64(80000))},
+		{rowCfg, c16FSM{}, "fsm", ev.Pick(r, 3, 8), 32, ev.Pick(r, int64(20000), int64(80000))},
 		{cmdCfg, c16Direct{}, "direct", ev.Pick(r, 6, 10), 0, ev.Pick(r, int64(60000), int64(400000))},
-		{cmdCfg, c16FSM{}, "fsm", ev.Pick(r, 3, 4), 32, ev.Pick(r, int64(20000), int64(80000))},
+		{cmdCfg, c16FSM{}, "fsm", ev.Pick(r, 3, 6), 32, ev.Pick(r, int64(20000), int64(80000))},
 		{dirCfg, c16Direct{}, "direct", ev.Pick(r, 4, 5), 0, ev.Pick(r, int64(60000), int64(800000))},
 		{dirCfg, c16FSM{}, "fsm", ev.Pick(r, 3, 3), 32, ev.Pick(r, int64(20000), int64(80000))},
 	}
